@@ -57,7 +57,10 @@ OnCall(rs, e) ==
       orderOk == \A i \in 1..ncb :
                     /\ nextIdx(i) <= Len(rs.sent)
                     /\ e.cbs[i].t = WithPdu(Parse(rs.sent[nextIdx(i)]), rs.sent[nextIdx(i)])
-      SentLen(i) == IF nextIdx(i) <= Len(rs.sent) THEN Len(rs.sent[nextIdx(i)]) ELSE 0
+      \* wire length of the i-th delivered telegram: the frame that was sent (clean stream), else what the
+      \* specification's own decoder reads at that place of the buffer
+      SentLen(i) == IF clean /\ nextIdx(i) <= Len(rs.sent) THEN Len(rs.sent[nextIdx(i)])
+                    ELSE IF i <= Len(m.cbs) THEN m.cbs[i].n ELSE 0
       consumedBytes == IF e.cbs = <<>> THEN 0 ELSE
                           LET RECURSIVE S(_) S(i) == IF i = 0 THEN 0 ELSE SentLen(i) + S(i - 1) IN S(ncb)
       (* is_last <=> no byte buffered behind that telegram at the time of the call-back *)
